@@ -687,6 +687,11 @@ def run_one(ctx, h, known_keys, replay_root):
                 rd = os.path.join(replay_root, re.sub(r"[^A-Za-z0-9_.-]", "_", h.name + "." + p["property"]))
                 ok, info = native_replay(ctx, h, vals, rd, extra_defines=excl,
                                          expect_desc=p.get("description") if ".assertion." in p["property"] else None)
+                if (not ok) and "compile failed" in str(info.get("error", "")):
+                    # the replay harness does not build natively: a defect of the machinery, never a verdict
+                    r.status = "error"
+                    r.detail = "native replay build failed: " + str(info.get("error"))[-600:]
+                    return r
                 entry["replay_dir"] = rd
                 entry["reproduced"] = ok
                 entry["replay_info"] = {k: info.get(k) for k in ("rc", "kind", "timed_out", "error")}
